@@ -15,6 +15,7 @@ FIXED = [
     (["C16", "C01", "C06", "C15"], "sanitize-non-ascii", "04eaa6e", "--bumped-branch 'fé/日本-x' rendered '1.2.3+fé.日本.x'; Unicode lower-casing mapped İ/K to ASCII letters"),
     (["C16", "C13", "C15"], "panic@src/utils/sanitize.rs", "2bb85a8", "sanitize(value='ééééé', max_length=3) panicked (String::truncate off a char boundary)"),
     (["C16"], "sanitize-leading-zero-after-truncation", "a5e9ed9", "sanitize('00a', max_length=2) = '00' (leading-zero digit segment, not idempotent)"),
+    (["C16", "C15"], "sanitize-mismatch (piece of a multi-character separator kept)", "19afd58", "sanitize(value='ab--cd', separator='--', max_length=3) = 'ab-'; sanitize('é0a', separator='--', max_length=1) = '-' (not runs joined by whole separators, not idempotent)"),
     (["C13", "C15"], "panic@src/cli/utils/template/functions.rs:prefix", "c28a0f0", "prefix(value='ééééé', length=3) panicked (byte slice)"),
     (["C13", "C15"], "panic@src/cli/utils/template/functions.rs:format_timestamp", "af6e9ec", "format_timestamp(value=.., format='%Q') panicked (chrono Display error)"),
     (["C13", "C15"], "panic@src/cli/utils/template/functions.rs:hash_int", "b434023", "hash_int(value=.., length=1000000, allow_leading_zero=true) panicked (format width)"),
